@@ -154,3 +154,56 @@ PROPS["C15"] = dict(
                                  "'consecutive re-use packets' counts substituted packets; a configuration call restarts the count (the weaker reading)"],
     outside=["explicit Label::ReUse passed by the caller is written as such and is not counted as a substitution"],
 )
+
+DECAP_FNS = ["dvb_gse_rust::gse_decap::Decapsulator::<T,C,M>::{decap,decap_complete,decap_first,decap_intermediate,decap_end}",
+             "dvb_gse_rust::gse_decap::iterate_over_extension_header", "dvb_gse_rust::header_extension::Extension::new",
+             "dvb_gse_rust::label::Label::new", "dvb_gse_rust::gse_decap::gse_decap_memory::SimpleGseMemory::{new,provision_storage,new_pdu,new_frag,take_frag,save_frag}"]
+STUBS_DECAP = ["dvb_gse_rust::gse_decap::read_gse_header -> per-kind spec decoding (sound by the C14 lemma, run as prerequisite)",
+               "core::mem::swap -> ptr::read/copy_nonoverlapping/write (std, loop-free)"]
+C05_SHAPES = {
+    "complete": ["free1", "free0", "occ_full", "ext_bc_free1", "ext_ru_free1", "ext_3b_free1", "ext_6b_free1", "ext_bc_free0"],
+    "first": ["free1", "free0", "occ", "s2_slot0", "s2_slot1", "ext_bc_free1", "ext_ru_free1", "ext_3b_free1", "ext_6b_free1", "ext_bc_occ", "ext_nomand_bc_free1"],
+    "inter": ["none", "match", "mismatch", "match_full", "match_ext", "s2_match", "s2_mismatch", "s2_empty_slot"],
+    "end": ["none", "match", "mismatch", "match_full", "match_ext", "s2_match", "s2_mismatch", "s2_empty_slot"],
+}
+STUB_HDR = STUBS_DECAP[:1]
+STUB_WALKER = "dvb_gse_rust::gse_decap::iterate_over_extension_header -> assert(false) stub in instances that assume type field >= 0x600 (unreachability is checked, not trusted)"
+MEMCMP = ["--unwindset", "memcmp.0:8"]
+
+
+def c05_members():
+    hs = []
+    for kind, shapes in C05_SHAPES.items():
+        for sh in shapes:
+            isext = "ext_" in sh and kind in ("complete", "first")
+            start = kind in ("complete", "first")
+            nb = ("header + label + chain area of 6 bytes (thorough 10) for complete / 2 bytes (thorough 4) for first fragments, one label type per instance, type field < 0x600 (extension walker; every chain that fits)" if isext else
+                  ("16 (thorough 24), type field >= 0x600" if start else "16 (thorough 24)"))
+            stubs = STUB_HDR + ([STUB_WALKER] if start and not isext else [])
+            hs.append(H(f"c05::{kind}_{sh}", bounds=f"arbitrary bytes, symbolic length 0..={nb}; receiver shape '{sh}' over RefMem (storage 6 bytes), all context fields / remembered label / storage contents symbolic; TestMgr",
+                        unwind=("complete 5 (thorough 7), first 3 (thorough 4); memcmp 8" if isext else 8), stubs=stubs, cost=(200 if isext else 20), timeout=900, mem_gb=(6 if isext else 3),
+                        cbmc_args=(MEMCMP if isext else None)))
+    hs.append(H("c05::padding_any", bounds="padding header + arbitrary tail, length 0..=16", unwind=8, stubs=STUB_HDR, cost=5))
+    for n in ["simple_end_occ", "simple_end_occ_full", "simple_complete_free1", "simple_first_free1", "simple_first_occ"]:
+        hs.append(H(f"c05::{n}", bounds="as the RefMem instance of the same name, with the bundled SimpleGseMemory in the loop (1 slot), type field >= 0x600", unwind=8, stubs=STUBS_DECAP + [STUB_WALKER], cost=30, timeout=900, mem_gb=3))
+    hs.append(H("c05::short_unstubbed", bounds="ALL byte strings of length 0..=3, real header reader (no stub), SimpleGseMemory", unwind=9, stubs=STUBS_DECAP[1:] + [STUB_WALKER], cost=20, mem_gb=3))
+    hs.append(H("c05::peek_total", bounds="arbitrary bytes, length 0..=16, real header reader", unwind=9, cost=5))
+    hs.append(T("c05::twin_end_occ", cost=10, stubs=STUBS_DECAP))
+    hs.append(H("c14::read_all_words", bounds="prerequisite lemma: read_gse_header == spec on all 65536 words", cost=1))
+    return hs
+
+
+PROPS["C05"] = dict(
+    claim="Bounded model checking of decap on the compiled code, split by packet kind: for EVERY byte string up to the size bound "
+          "(every header word, every truncation, every tail) and EVERY receiver state of each heap shape (no context / context on the same, "
+          "aliasing or other id / context carrying an extension; free list empty, partly filled, full; any remembered label; any storage "
+          "contents) the solver shows decap returns without any panic inside the crate, consumed <= length and consumed >= min(2, length). "
+          "All strings of length 0..=3 are checked with the real header reader; the peek function on all strings up to 16 bytes.",
+    note="Trusted: Kani/CBMC/CaDiCaL; the per-kind header stub, whose equivalence with read_gse_header on all 65536 words is discharged by the C14 lemma run in the same check.",
+    harnesses=c05_members(),
+    functions=DECAP_FNS + ["dvb_gse_rust::gse_decap::Decapsulator::get_label_or_frag_id", "dvb_gse_rust::gse_decap::read_gse_header"],
+    assumptions=COMMON_ASSUME + ["receiver pre-state: SimpleGseMemory built through the public trait in a concrete heap shape (DESIGN 3.5) with symbolic contents; contexts satisfy pdu_len <= storage length and frag_id % slots == slot; remembered label None / 3-byte / non-zero 6-byte",
+                                 "ConstCrc as CRC calculator; TestMgr as extension manager (knows 0x10 NonFinal(3), 0x11 NonFinal(0), 0x20 Final(2), 0x21 Final(0))"],
+    prereq_note=["C14 read_all_words"],
+    outside=["arbitrary contents beyond 16 (24) bytes; extension chains longer than the bytes available within that bound", "storage buffers larger than 6 bytes", "memories with more than 2 slots"],
+)
